@@ -97,6 +97,8 @@ def run(ctx):
         ctx.hist("stat_" + k, v)
     if done >= 200 and (stats.get("roundtrips", 0) < done * 0.3):
         raise common.InfraError("degenerate distribution: %r of %d round trips" % (stats, done))
+    if done >= 300 and stats.get("class_mid_reference", 0) < 10:
+        raise common.InfraError("too few set-ups of tables with ${<NAME>_DIR} in the middle of a value: %r" % (stats,))
     if done >= 200 and stats.get("sh_compared", 0) < stats.get("ok", 0) * 0.5:
         raise common.InfraError("command lists compared string by string on too few requests: %r" % (stats,))
     bad = ctx.histogram.get("outcome=notfound", 0) + ctx.histogram.get("outcome=raised", 0)
